@@ -493,6 +493,25 @@ pub fn overlap(output: &str) -> std::io::Result<i32> {
     }
     exec(&mut me, &rc, &json!({"ev":"call","t":1,"op":"root","h":102,"tr":2,"smp":true}));
     exec(&mut me, &rc, &json!({"ev":"call","t":1,"op":"drop","h":102}));
+    // C07: while the reporter is busy inside report(), a thread that has never traced makes its first
+    // tracing calls.  Registering its queue may wait for a sweep over the queues, never for the reporter.
+    let fresh = {
+        let rc = rc.clone();
+        std::thread::spawn(move || {
+            rt::ME.with(|m| m.set(Some(4)));
+            emit(json!({"ev":"spawn","t":4}));
+            let mut a = Actor { t: 4 };
+            exec(&mut a, &rc, &json!({"ev":"call","t":4,"op":"root","h":403,"tr":2,"smp":true}));
+            exec(&mut a, &rc, &json!({"ev":"call","t":4,"op":"drop","h":403}));
+        })
+    };
+    let deadline = std::time::Instant::now() + Duration::from_secs(2);
+    while !fresh.is_finished() && std::time::Instant::now() < deadline {
+        std::thread::sleep(Duration::from_millis(1));
+    }
+    if !fresh.is_finished() && s.in_report.load(Ordering::SeqCst) {
+        emit(json!({"ev":"hang","p":"C07","who":"the first tracing call of a new thread waits while the reporter is inside report()"}));
+    }
     let f2 = flush_on(3);
     std::thread::sleep(Duration::from_millis(50));
     s.report_gate.store(false, Ordering::SeqCst);
@@ -508,6 +527,7 @@ pub fn overlap(output: &str) -> std::io::Result<i32> {
             hung = true;
         }
     }
+    let _ = fresh.join();
     if hung {
         emit(json!({"ev":"hang","who":"flush() overlapping another cycle"}));
     } else {
